@@ -158,6 +158,8 @@ func c02Body(sc c02Scn, res *string) func(x *sched.Exec) {
 		earlyShutdown := false
 		shutdownCalledAt := -1
 		var addReturned []c02Done
+		clk := 0 // harness clock (one tick per recorded event; the scheduler's step counter does not move between two harness statements)
+		tick := func() int { clk++; return clk }
 		collect := func(rd *ManualReader, into *[][]c02Point, wantTemp metricdata.Temporality) {
 			var rm metricdata.ResourceMetrics
 			if err := rd.Collect(ctx, &rm); err != nil {
@@ -182,7 +184,7 @@ func c02Body(sc c02Scn, res *string) func(x *sched.Exec) {
 				defer wg.Done()
 				for _, op := range l {
 					add(op.v, op.a)
-					addReturned = append(addReturned, c02Done{op.v, op.a, x.Step()})
+					addReturned = append(addReturned, c02Done{op.v, op.a, tick()})
 				}
 			})
 		}
@@ -200,7 +202,7 @@ func c02Body(sc c02Scn, res *string) func(x *sched.Exec) {
 							failed = true
 						}
 					case "S": // Shutdown racing the interval export
-						shutdownCalledAt = x.Step()
+						shutdownCalledAt = tick()
 						if err := pr.Shutdown(ctx); err != nil {
 							failed = true
 						}
